@@ -4,8 +4,43 @@ import Bmc.Proofs.C17.Sess
 import Bmc.Proofs.C17.Sdr
 import Bmc.Proofs.C17.Setup
 import Bmc.Proofs.C17.Dcmi
+import Bmc.Proofs.GenDec.TranslatedOk
+import Bmc.Proofs.GenDec.ReserveSDRRepositoryRsp
+import Bmc.Proofs.GenDec.GetSystemGUIDRsp
+import Bmc.Proofs.GenDec.SetSessionPrivilegeLevelRsp
+import Bmc.Proofs.GenDec.GetSDRRsp
+import Bmc.Proofs.GenDec.SDR
+import Bmc.Proofs.GenDec.GetSensorReadingRsp
+import Bmc.Proofs.GenDec.GetChannelCipherSuitesRsp
+import Bmc.Proofs.GenDec.GetChannelAuthenticationCapabilitiesRsp
+import Bmc.Proofs.GenDec.GetSDRRepositoryInfoRsp
+import Bmc.Proofs.GenDec.GetPowerReadingRsp
+import Bmc.Proofs.GenDec.GetChassisStatusRsp
+import Bmc.Proofs.GenDec.GetDeviceIDRsp
+import Bmc.Proofs.GenDec.RAKPMessage4
+import Bmc.Proofs.GenDec.RAKPMessage2
+import Bmc.Proofs.GenDec.RAKPMessage1
+import Bmc.Proofs.GenDec.V1Session
+import Bmc.Proofs.GenDec.GetSessionInfoRsp
+import Bmc.Proofs.GenDec.OpenSessionRsp
+import Bmc.Proofs.GenDec.GetDCMICapabilitiesInfoManageabilityAccessAttrsRsp
+import Bmc.Proofs.GenDec.GetDCMICapabilitiesInfoOptionalPlatformAttrsRsp
+import Bmc.Proofs.GenDec.GetDCMICapabilitiesInfoSupportedCapabilitiesRsp
+import Bmc.Proofs.GenDec.GetDCMICapabilitiesInfoMandatoryPlatformAttrsRsp
+import Bmc.Proofs.GenDec.SessionSelector
+import Bmc.Proofs.GenDec.Message
+import Bmc.Proofs.GenDec.GetDCMICapabilitiesInfoEnhancedSystemPowerStatisticsAttrsRsp
+import Bmc.Proofs.GenDec.GetDCMISensorInfoRsp
+import Bmc.Proofs.GenDec.FullSensorRecord
+import Bmc.Proofs.GenDec.V2Session
+import Bmc.Proofs.GenDec.AES128CBC
 import Bmc.Proofs.GenOrch.TranslatedOk
+import Bmc.Proofs.GenOrch.WalkSDRs
+import Bmc.Proofs.GenOrch.RetrieveSDRRepository
 import Bmc.Proofs.ApiWrappers
+import Bmc.Proofs.EndToEnd.DecodeC07
+import Bmc.Proofs.EndToEnd.DecodeSetupC07
+import Bmc.Proofs.EndToEnd.ReuseC17
 #print axioms Bmc.Proofs.C17.deviceID_reuse
 #print axioms Bmc.Proofs.C17.chassis_reuse
 #print axioms Bmc.Proofs.C17.message_reuse
@@ -36,9 +71,69 @@ import Bmc.Proofs.ApiWrappers
 #print axioms Bmc.Proofs.C17.dcmiCap5_reuse
 #print axioms Bmc.Proofs.C17.powerReading_reuse
 #print axioms Bmc.Proofs.C17.sensorInfo_reuse
+#print axioms Bmc.Proofs.GenDec.translated_ok
+#print axioms Bmc.Proofs.GenDec.ReserveSDRRepositoryRsp_gen_eq
+#print axioms Bmc.Proofs.GenDec.GetSystemGUIDRsp_gen_eq
+#print axioms Bmc.Proofs.GenDec.SetSessionPrivilegeLevelRsp_gen_eq
+#print axioms Bmc.Proofs.GenDec.GetSDRRsp_gen_eq
+#print axioms Bmc.Proofs.GenDec.SDR_gen_eq
+#print axioms Bmc.Proofs.GenDec.GetSensorReadingRsp_gen_eq
+#print axioms Bmc.Proofs.GenDec.GetChannelCipherSuitesRsp_gen_eq
+#print axioms Bmc.Proofs.GenDec.GetChannelAuthenticationCapabilitiesRsp_gen_eq
+#print axioms Bmc.Proofs.GenDec.GetSDRRepositoryInfoRsp_gen_eq
+#print axioms Bmc.Proofs.GenDec.GetPowerReadingRsp_gen_eq
+#print axioms Bmc.Proofs.GenDec.GetChassisStatusRsp_gen_eq
+#print axioms Bmc.Proofs.GenDec.GetDeviceIDRsp_gen_eq
+#print axioms Bmc.Proofs.GenDec.RAKPMessage4_gen_eq
+#print axioms Bmc.Proofs.GenDec.RAKPMessage2_gen_eq
+#print axioms Bmc.Proofs.GenDec.RAKPMessage1_gen_eq
+#print axioms Bmc.Proofs.GenDec.V1Session_gen_eq
+#print axioms Bmc.Proofs.GenDec.GetSessionInfoRsp_gen_eq
+#print axioms Bmc.Proofs.GenDec.OpenSessionRsp_gen_eq
+#print axioms Bmc.Proofs.GenDec.GetDCMICapabilitiesInfoManageabilityAccessAttrsRsp_gen_eq
+#print axioms Bmc.Proofs.GenDec.GetDCMICapabilitiesInfoOptionalPlatformAttrsRsp_gen_eq
+#print axioms Bmc.Proofs.GenDec.GetDCMICapabilitiesInfoSupportedCapabilitiesRsp_gen_eq
+#print axioms Bmc.Proofs.GenDec.GetDCMICapabilitiesInfoMandatoryPlatformAttrsRsp_gen_eq
+#print axioms Bmc.Proofs.GenDec.SessionSelector_gen_eq
+#print axioms Bmc.Proofs.GenDec.Message_gen_eq
+#print axioms Bmc.Proofs.GenDec.GetDCMICapabilitiesInfoEnhancedSystemPowerStatisticsAttrsRsp_gen_eq
+#print axioms Bmc.Proofs.GenDec.GetDCMISensorInfoRsp_gen_eq
+#print axioms Bmc.Proofs.GenDec.FullSensorRecord_gen_eq
+#print axioms Bmc.Proofs.GenDec.V2Session_gen_eq
+#print axioms Bmc.Proofs.GenDec.AES128CBC_gen_eq
 #print axioms Bmc.Proofs.GenOrch.translated_ok
 #print axioms Bmc.Proofs.GenOrch.gaveUp_none
+#print axioms Bmc.Proofs.GenOrch.walkSDRs_gen_eq
+#print axioms Bmc.Proofs.GenOrch.RetrieveSDRRepository_gen_eq
 #print axioms Bmc.Proofs.ApiWrappers.api_wrappers
 #print axioms Bmc.Proofs.ApiWrappers.api_other_senders
 #print axioms Bmc.Proofs.ApiWrappers.api_cmd_constructors
 #print axioms Bmc.Proofs.ApiWrappers.validate_response
+#print axioms Bmc.Proofs.EndToEnd.generated_GetDeviceIDRsp_decodes
+#print axioms Bmc.Proofs.EndToEnd.generated_AuthCapsRsp_decodes
+#print axioms Bmc.Proofs.EndToEnd.generated_CipherSuitesRsp_decodes
+#print axioms Bmc.Proofs.EndToEnd.generated_SetPrivRsp_decodes
+#print axioms Bmc.Proofs.EndToEnd.generated_GUIDRsp_decodes
+#print axioms Bmc.Proofs.EndToEnd.generated_SessionInfoRsp_decodes
+#print axioms Bmc.Proofs.EndToEnd.generated_ChassisStatusRsp_decodes
+#print axioms Bmc.Proofs.EndToEnd.generated_SDRRepoInfoRsp_decodes
+#print axioms Bmc.Proofs.EndToEnd.generated_ReserveRsp_decodes
+#print axioms Bmc.Proofs.EndToEnd.generated_GetSDRRsp_decodes
+#print axioms Bmc.Proofs.EndToEnd.generated_FullSensorRecord_decodes
+#print axioms Bmc.Proofs.EndToEnd.generated_PowerReadingRsp_decodes
+#print axioms Bmc.Proofs.EndToEnd.generated_SDRHeader_decodes
+#print axioms Bmc.Proofs.EndToEnd.generated_SensorReadingRsp_decodes
+#print axioms Bmc.Proofs.EndToEnd.generated_SensorInfoRsp_decodes
+#print axioms Bmc.Proofs.EndToEnd.generated_Cap1_decodes
+#print axioms Bmc.Proofs.EndToEnd.generated_Cap2_decodes
+#print axioms Bmc.Proofs.EndToEnd.generated_Cap3_decodes
+#print axioms Bmc.Proofs.EndToEnd.generated_Cap4_decodes
+#print axioms Bmc.Proofs.EndToEnd.generated_Cap5_decodes
+#print axioms Bmc.Proofs.EndToEnd.generated_OpenSessionRsp_decodes
+#print axioms Bmc.Proofs.EndToEnd.generated_RAKPMessage1_decodes
+#print axioms Bmc.Proofs.EndToEnd.generated_RAKPMessage2_decodes
+#print axioms Bmc.Proofs.EndToEnd.generated_RAKPMessage4_decodes
+#print axioms Bmc.Proofs.EndToEnd.generated_SessionSelector_decodes
+#print axioms Bmc.Proofs.EndToEnd.generated_V1Session_decodes
+#print axioms Bmc.Proofs.EndToEnd.generated_session_SendCommand_ignores_history
+#print axioms Bmc.Proofs.EndToEnd.generated_sessionless_SendCommand_ignores_history
